@@ -123,6 +123,7 @@ type node struct {
 	aux     map[string]int
 	key     [32]byte
 	appHash string
+	obs     StepObs
 	dead    bool // diverged or halted: not expanded
 }
 
@@ -316,6 +317,10 @@ func (s *Scenario) Explore(opt Options) (Stats, []Violation) {
 					mu.Unlock()
 					j := jobs[ji]
 					p := frontier[j.parent]
+					if e.W.Poisoned { // the previous job halted the chain on this instance
+						e = s.NewExec()
+						e.W.SetBase(base)
+					}
 					e.W.Restore(p.snap)
 					e.M = p.m.Clone()
 					e.Aux = cloneAux(p.aux)
@@ -385,7 +390,7 @@ func (s *Scenario) Explore(opt Options) (Stats, []Violation) {
 			seen[r.key] = true
 			st.States++
 			newCount++
-			n := &node{path: path, snap: r.snap, m: r.m, aux: r.aux, key: r.key, appHash: r.obs.AppHash, dead: r.obs.Diverged || len(r.discs) > 0}
+			n := &node{path: path, snap: r.snap, m: r.m, aux: r.aux, key: r.key, appHash: r.obs.AppHash, obs: r.obs, dead: r.obs.Diverged || len(r.discs) > 0}
 			if n.dead {
 				st.DeadStates++
 			}
@@ -420,7 +425,9 @@ func (s *Scenario) Explore(opt Options) (Stats, []Violation) {
 					e, obs := s.ReplayPath(n.path, false)
 					last := obs[len(obs)-1]
 					if last.AppHash != n.appHash {
-						errs[i] = fmt.Sprintf("path %v: app hash on fresh replay %s != explored %s", names(n.path), last.AppHash, n.appHash)
+						ob, _ := json.Marshal(n.obs)
+						ob2, _ := json.Marshal(obs)
+						errs[i] = fmt.Sprintf("path %v: app hash on fresh replay %s != explored %s\nexplored step: %s\nreplayed: %s", names(n.path), last.AppHash, n.appHash, ob, ob2)
 					} else if k := e.Key(s.KeyTimeNs); k != n.key {
 						errs[i] = fmt.Sprintf("path %v: state key on fresh replay differs", names(n.path))
 					}
